@@ -36,7 +36,7 @@ N6 = 156
 N7 = 1044
 PLAN = {
     'quick': dict(cases=N_SMALL + N5 + N6 + 160 + 24, budget_s=90, case_timeout=120, min_cases=N_SMALL + N5),
-    'thorough': dict(cases=N_SMALL + N5 + N6 + N7 + 4000 + 400, budget_s=1500, case_timeout=600,
+    'thorough': dict(cases=N_SMALL + N5 + N6 + N7 + 4000 + 400, budget_s=900, case_timeout=600,
                      min_cases=N_SMALL + N5 + N6),
 }
 LETTERS = ['a', 'b', 'c', 'd', 'e', 'f', 'g', 'h', 'i', 'j', 'k', 'l']
